@@ -1,7 +1,9 @@
 import JellyModel.PyPrelude
 import JellyModel.Encode
+import JellyGenerated.LookupGen
+import JellyGenerated.FuncsGen
 /-!
-# GENERATED — do not edit. Translated from pyjelly/serialize/encode.py (TermEncoder.start_row / end_row) by
+# GENERATED — do not edit. Translated from pyjelly/serialize/encode.py (TermEncoder.start_row / end_row / encode_iri_indices) by
 harness/gen_translate_enc.py on every check run; `JellyProofs/TranslatedEnc.lean` proves them equal to the model's
 `TermEnc.beginRow` / `TermEnc.endRow`.
 -/
@@ -32,5 +34,26 @@ def TermEncoder.end_row : M Jelly.TermEnc Unit := do
   modify fun s => { s with prefixes := { s.prefixes with lookup := { s.prefixes.lookup with pinned := t3__ } } }
   let t4__ := (none : Option (List String))
   modify fun s => { s with datatypes := { s.datatypes with lookup := { s.datatypes.lookup with pinned := t4__ } } }
+
+/-- `TermEncoder.encode_iri_indices` (pyjelly/serialize/encode.py:85) -/
+def TermEncoder.encode_iri_indices (iri_string : String) : M Jelly.TermEnc (List Row × Nat × Nat) := do
+  let mut prefix_entry_index : Option Nat := default
+  let t1__ := (← liftE (split_iri iri_string))
+  let mut prefix_ := t1__.1
+  let mut name := t1__.2
+  if truthy ((← get).prefixes.lookup.maxSize) then
+    prefix_entry_index := (← zoom (·.prefixes) (fun s v => { s with prefixes := v }) (LookupEncoder.encode_entry_index prefix_))
+  else
+    name := iri_string
+    prefix_entry_index := none
+  let mut name_entry_index := (← zoom (·.names) (fun s v => { s with names := v }) (LookupEncoder.encode_entry_index name))
+  let mut term_rows := ([] : List Row)
+  if (prefix_entry_index).isSome then
+    term_rows := term_rows ++ [Row.prefixEntry (← liftE (optGet prefix_entry_index)) prefix_]
+  if (name_entry_index).isSome then
+    term_rows := term_rows ++ [Row.nameEntry (← liftE (optGet name_entry_index)) name]
+  let mut prefix_index := (← zoom (·.prefixes) (fun s v => { s with prefixes := v }) (LookupEncoder.encode_prefix_term_index prefix_))
+  let mut name_index := (← zoom (·.names) (fun s v => { s with names := v }) (LookupEncoder.encode_name_term_index name))
+  return (term_rows, prefix_index, name_index)
 
 end Jelly.Gen
